@@ -49,7 +49,7 @@ func FuzzC20Text(f *testing.F) {
 			t.Fatalf("C20 violated (generated BPE vocabulary): %v", err)
 		}
 		if !strings.Contains(s, spmWhitespaceSep) {
-			c = c20Case{Family: "spm-synth", AddBOS: bos, AddEOS: eos, Parts: parts, NMerges: nm, ScoreMode: int((mode >> 6) & 3), CharMode: int((mode>>8)&3) % 3}
+			c = c20Case{Family: "spm-synth", AddBOS: bos, AddEOS: eos, Parts: parts, NMerges: nm, ScoreMode: int((mode >> 6) & 3), CharMode: int((mode>>8)&3) % 3, ByteLayout: int(mode>>10) % 3}
 			if nm == 0 {
 				c.ScoreMode = 0
 			}
